@@ -5,7 +5,7 @@
    (C19_documented_rule_without_resume covers whole sessions; the four per-command theorems are stated at an
    arbitrary stop (statement s1, not itself a breakpoint) of such a session). *)
 From Coq Require Import List ZArith Bool.
-From Verif Require Import C19.Model C19.Proof.
+From Verif Require Import C19.Model C19.Proof C19.Stock.
 Import ListNotations.
 Open Scope Z_scope.
 
@@ -107,6 +107,72 @@ Theorem C19_transparent : forall (PState : Type) (pnext : PState -> option stmt)
   (pf, tr) = exec_plain pnext pexec fuel ps /\ sts = run st i tr cmds.
 Proof. exact @exec_transparent. Qed.
 Print Assumptions C19_transparent.
+
+(* ---------- the stock debugger layer (fast/debug/api.go): krun / kdstep = run / dstep with every callback passed through
+   Debugger.main, which does not prompt at a statement without source position (synthetic s: the epilogue of
+   `return expr`, executed before the deferred calls run one level deeper) and answers it with the depth in force;
+   the stops of krun are the PROMPTS ---------- *)
+
+(* a statement without source position is transparent in EVERY state: no prompt, no command consumed, DebugDepth kept *)
+Theorem C19_stock_synthetic_statement_transparent : forall st i s cmds, synthetic s = true -> 0 <= dd st ->
+  exists fr, kdstep st i s cmds = (mkD (dd st) fr, [], cmds).
+Proof. exact kdstep_synth. Qed.
+Print Assumptions C19_stock_synthetic_statement_transparent.
+
+(* on a statement with source position the stock layer is exactly the raw layer *)
+Theorem C19_stock_visible_is_raw : forall st i s cmds, synthetic s = false -> kdstep st i s cmds = dstep st i s cmds.
+Proof. exact kdstep_vis. Qed.
+Print Assumptions C19_stock_visible_is_raw.
+
+(* in EVERY state and for every command list: a prompt that is not a breakpoint happens only at a statement with source
+   position whose call depth is below the depth requested by the last answer (step: any, next: same or shallower,
+   finish: shallower, continue: none) *)
+Theorem C19_stock_stop_justified : forall st i s cmds st' sts cmds',
+  kdstep st i s cmds = (st', sts, cmds') -> In (i, false) sts -> sdepth s < dd st /\ synthetic s = false.
+Proof. exact kdstep_at_justified. Qed.
+Print Assumptions C19_stock_stop_justified.
+
+(* whole sessions through the stock debugger, never resuming after continue: the prompts are those of the documented
+   rule evaluated on the statements WITH source position; the others neither stop nor change what was requested *)
+Theorem C19_stock_documented_rule_without_resume : forall tr cmds, wf_trace tr -> noresume cmds ->
+  kstops tr cmds = kdoc_run MaxInt 0 tr cmds.
+Proof. exact kstops_doc. Qed.
+Print Assumptions C19_stock_documented_rule_without_resume.
+
+(* next typed at s1 (for instance the return statement of a function with deferred calls): position-less statements and
+   deeper non-breakpoint statements (the deferred functions) do not prompt; the next prompt is the first statement with
+   position at the same or a shallower depth, or the first breakpoint *)
+Theorem C19_stock_next_same_or_shallower : forall st i s1 cmds, all_ss st -> 0 < dd st -> sdepth s1 < dd st ->
+  sbp s1 = false -> synthetic s1 = false -> 1 <= sdepth s1 -> forall pre s2 tr,
+  Forall (fun x => synthetic x = true \/ (sdepth s1 < sdepth x /\ sbp x = false)) pre ->
+  synthetic s2 = false -> (sdepth s2 <= sdepth s1 \/ sbp s2 = true) ->
+  exists rest, krun st i (s1 :: pre ++ s2 :: tr) (Next :: cmds) =
+    (i, false) :: (i + 1 + Z.of_nat (length pre), negb (sdepth s2 <=? sdepth s1)) :: rest.
+Proof. exact knext_same_or_shallower. Qed.
+Print Assumptions C19_stock_next_same_or_shallower.
+
+Theorem C19_stock_finish_shallower : forall st i s1 cmds, all_ss st -> 0 < dd st -> sdepth s1 < dd st ->
+  sbp s1 = false -> synthetic s1 = false -> 1 <= sdepth s1 -> forall pre s2 tr,
+  Forall (fun x => synthetic x = true \/ (sdepth s1 <= sdepth x /\ sbp x = false)) pre ->
+  synthetic s2 = false -> (sdepth s2 < sdepth s1 \/ sbp s2 = true) ->
+  exists rest, krun st i (s1 :: pre ++ s2 :: tr) (Finish :: cmds) =
+    (i, false) :: (i + 1 + Z.of_nat (length pre), negb (sdepth s2 <? sdepth s1)) :: rest.
+Proof. exact kfinish_shallower. Qed.
+Print Assumptions C19_stock_finish_shallower.
+
+Theorem C19_stock_next_no_qualifying_no_stop : forall st i s1 cmds, all_ss st -> 0 < dd st -> sdepth s1 < dd st ->
+  sbp s1 = false -> synthetic s1 = false -> 1 <= sdepth s1 -> forall pre,
+  Forall (fun x => synthetic x = true \/ (sdepth s1 < sdepth x /\ sbp x = false)) pre ->
+  krun st i (s1 :: pre) (Next :: cmds) = [(i, false)].
+Proof. exact knext_no_stop. Qed.
+Print Assumptions C19_stock_next_no_qualifying_no_stop.
+
+(* non-vacuity (stock layer): f with a deferred call; `next` on the return statement (index 3) does not stop in the deferred
+   function (5, 6) that runs after the position-less epilogue (4); `step` does *)
+Example C19_ex_stock_next : kstops kwit_trace [Step; Step; Step; Next] = [(0, false); (1, false); (2, false); (3, false)].
+Proof. exact kwit_next. Qed.
+Example C19_ex_stock_step : kstops kwit_trace (repeat Step 7) = [(0, false); (1, false); (2, false); (3, false); (5, false); (6, false)].
+Proof. exact kwit_step. Qed.
 
 (* non-vacuity: the hypotheses are satisfiable on a real trace (main -> f -> g with a breakpoint) *)
 Example C19_ex_step : stops wit_trace (repeat Step 5) = [(0, false); (1, false); (2, false); (3, false); (4, false); (5, false); (8, true)].
